@@ -165,6 +165,8 @@ def run(ctx):
         "theorems are about Gen/PureFns.v / Gen/Consts.v (regenerated from /repo by tools/tx) and the hand-written depth model Safe/Depth.v; "
         "absence of crashes in the running code (generated x86, native blobs, Go runtime) is explored by fuzzing in child processes, not proved",
         "calcBounds / description theorems assume len(Src) <= max_int - 16 (a Go string cannot be longer)",
+        "encoder side: the state-stack bound itself is b-c03's model (C04 / C12); here the emitted IR of pointer types is checked for the save/deref/drop bracket and "
+        "cyclic values (incl. pointer-to-interface and self-pointer-type cycles) are marshalled in the child process with both encoder back ends",
         "Config{UseInt64,UseNumber both true} (Decoder.SetOptions documents a panic) and PretouchMany of same-named types (C09) are excluded",
         "regression of the repaired unbounded ast recursion: quick tier runs 4e5 levels with the goroutine stack limit lowered to 16 MiB (debug.SetMaxStack), thorough 1e7 levels under the 1 GB default",
     ]
@@ -272,6 +274,12 @@ def run(ctx):
                 lens.setdefault(f[1], {})[int(f[2])] = (int(f[3]), int(f[4]))
             elif f[0] == "T":
                 times.append(f[1:])
+            elif f[0] == "D":
+                ctx.cov["encoder_ir_types_checked"] = ctx.cov.get("encoder_ir_types_checked", 0) + 1
+                if f[3] != "ok":
+                    # the tie on the emitted IR: a dereference without a state-stack frame lets a pointer cycle recurse without limit
+                    real.append(("encoder IR of %s (pv=%s): %s - a cycle through this pointer is not stopped by the depth limit" % (f[1], f[2], f[4][:200]),
+                                 {"mode": "proglen", "type": f[1], "pv": f[2], "detail": f[4]}))
         expo, detail = [], []
         for kind, tab in sorted(lens.items()):
             for side, ix in (("decoder", 0), ("encoder", 1)):
@@ -326,7 +334,8 @@ def run(ctx):
                 os.remove(fn)
         log = open(os.path.join(work, "fuzz%d.log" % i), "w")
         procs.append((env, outp, prog, log, subprocess.Popen(
-            [hb, "-mode", "fuzz", "-n", str(int(n * share)), "-seed", str(ctx.seed + i), "-out", outp, "-progress", prog, "-corpus", corpus_dir],
+            [hb, "-mode", "fuzz", "-n", str(int(n * share)), "-seed", str(ctx.seed + i), "-out", outp, "-progress", prog, "-corpus", corpus_dir,
+             "-maxstack", str(256 << 20)],      # a runaway recursion dies after 256 MiB instead of 1 GB: same observable, sooner
             env=e, stdout=log, stderr=subprocess.STDOUT)))
     # T3 (hostile depths, each case in its own child process) runs concurrently with the fuzz workers
     deep_out = os.path.join(work, "deep.json")
@@ -421,6 +430,8 @@ def run(ctx):
     if gone and not real and not problems and deep:
         problems.append(("T", "recorded finding(s) no longer reproduce on the implementation although the model still predicts them: " + ", ".join(gone)))
 
+    # a dead process first (the strongest observable), then everything else
+    real.sort(key=lambda wp: 0 if wp[0].startswith(("process ", "child process ")) else 1)
     shown = set()
     for what, payload in real:
         key = "".join(ch for ch in what[:60] if not ch.isdigit())
